@@ -111,4 +111,138 @@ theorem k_polyEvaluateAt_eq (F : GF.GF) (hF : TablesOK F) (p : List Nat) (a : Na
         rw [show Int.ofNat m = (m : Int) from rfl, k_gfAddOrSubtract_eq]
         rfl
 
+
+/-! ### NewGenericGFPoly -/
+
+/-- number of leading zeros -/
+def lz (l : List Nat) : Nat := (l.takeWhile (· == 0)).length
+
+theorem dropWhile_eq_drop_lz (l : List Nat) : l.dropWhile (· == 0) = l.drop (lz l) := by
+  induction l with
+  | nil => rfl
+  | cons x xs ih =>
+    unfold lz
+    by_cases h : (x == 0) = true
+    · rw [List.dropWhile_cons_of_pos (p := (· == 0)) h, List.takeWhile_cons_of_pos (p := (· == 0)) h, List.length_cons, List.drop_succ_cons]; exact ih
+    · rw [List.dropWhile_cons_of_neg (p := (· == 0)) h, List.takeWhile_cons_of_neg (p := (· == 0)) h]; rfl
+
+theorem lz_le (l : List Nat) : lz l ≤ l.length := by
+  unfold lz; exact (List.takeWhile_sublist _).length_le
+
+/-- the scan for the first non-zero coefficient, on model indices -/
+def scanStep (cs : List Nat) (i : Nat) : Ctl Nat (List Int × Bool) :=
+  match cs[i]? with
+  | some 0 => .next (i + 1)
+  | _ => .brk i
+
+theorem scan_run (cs : List Nat) : ∀ (l : List Nat) (i n : Nat), cs.drop i = l → l.length < n →
+    whileLoop (scanStep cs) n i = .brk (i + lz l) := by
+  intro l
+  induction l with
+  | nil =>
+    intro i n hd hn
+    obtain ⟨n, rfl⟩ : ∃ k, n = k + 1 := ⟨n - 1, by simp at hn; omega⟩
+    have : cs[i]? = none := by
+      rw [List.getElem?_eq_none_iff]; exact List.drop_eq_nil_iff.mp hd
+    rw [whileLoop_succ]; simp only [scanStep, this]; rfl
+  | cons x xs ih =>
+    intro i n hd hn
+    obtain ⟨n, rfl⟩ : ∃ k, n = k + 1 := ⟨n - 1, by simp at hn; omega⟩
+    have hx : cs[i]? = some x := by
+      have := congrArg List.head? hd
+      rwa [List.head?_drop] at this
+    have hd' : cs.drop (i + 1) = xs := by
+      rw [← List.drop_drop, hd]; rfl
+    rw [whileLoop_succ]
+    simp only [scanStep, hx]
+    cases x with
+    | zero =>
+      simp only []
+      rw [ih (i + 1) n hd' (by simp at hn; omega)]
+      unfold lz
+      rw [List.takeWhile_cons_of_pos (p := (· == 0)) (by rfl), List.length_cons]
+      congr 1; omega
+    | succ k =>
+      simp only []
+      unfold lz
+      rw [List.takeWhile_cons_of_neg (p := (· == 0)) (by simp)]; rfl
+
+when_kernel Gzx.Gen.K04b.newPoly in
+/-- `NewGenericGFPoly(field, coefficients)` = the model's `mkPoly`: error for an empty slice, leading zeros stripped
+    (the constant polynomial 0 keeps one coefficient) -/
+theorem k_newPoly_eq (gf : Gen.K04b.GenericGF) (cs : List Nat) :
+    Gen.K04b.newPoly gf (ints cs) = expE [] ints (mkPoly cs) := by
+  simp only [Gen.K04b.newPoly, len_ints, mkPoly]
+  cases cs with
+  | nil => rfl
+  | cons c tl =>
+    have hne : (((((c :: tl).length : Nat) : Int) == 0) = false) := by
+      rw [show (0 : Int) = ((0 : Nat) : Int) from rfl, natCast_beq]; rfl
+    simp only [hne, Bool.false_eq_true, if_false, List.isEmpty_cons]
+    rw [idx_ints _ 0 0 rfl]
+    simp only [List.getElem?_cons_zero, tryR_ok, natCast_beq_zero]
+    by_cases h1 : tl = []
+    · subst h1
+      simp only [List.length_cons, List.length_nil, Nat.zero_add, show decide ((((1 : Nat) : Int)) > 1) = false from rfl,
+        Bool.false_eq_true, if_false, tryR_ok, next_thenR, expE_ok]
+      unfold normalize
+      cases c with
+      | zero => rfl
+      | succ k => rfl
+    have hlen : 1 < (c :: tl).length := by
+      have : 0 < tl.length := List.length_pos_iff.mpr h1
+      simp; omega
+    have hd : decide ((((c :: tl).length : Nat) : Int) > 1) = true := by
+      apply decide_eq_true; omega
+    simp only [hd, if_true, tryR_ok]
+    cases c with
+    | succ k =>
+      simp only [show (k + 1 == 0) = false from rfl, Bool.false_eq_true, if_false, next_thenR, expE_ok]
+      unfold normalize
+      rw [List.dropWhile_cons_of_neg (p := (· == 0)) (by simp)]
+    | zero =>
+      simp only [show ((0 : Nat) == 0) = true from rfl, if_true]
+      rw [while_map' (Nat.cast : Nat → Int) (scanStep (0 :: tl)) 1]
+      · rw [scan_run (0 :: tl) tl 1 _ rfl (by rw [tripUp_one]; simp)]
+        simp only [mapS_brk, brk_thenC, expE_ok]
+        unfold normalize
+        rw [List.dropWhile_cons_of_pos (p := (· == 0)) (by rfl), dropWhile_eq_drop_lz]
+        have hle := lz_le tl
+        by_cases hall : lz tl = tl.length
+        · have hb : ((((1 + lz tl : Nat) : Int)) == (((0 :: tl).length : Nat) : Int)) = true := by
+            rw [natCast_beq, beq_iff_eq]; simp; omega
+          simp only [hb, if_true, next_thenC, next_thenR]
+          rw [hall, List.drop_length]
+          rfl
+        · have hb : ((((1 + lz tl : Nat) : Int)) == (((0 :: tl).length : Nat) : Int)) = false := by
+            rw [natCast_beq, beq_eq_false_iff_ne]; simp; omega
+          simp only [hb, Bool.false_eq_true, if_false]
+          have hs : GoM.slice (ints (0 :: tl)) ((1 + lz tl : Nat) : Int) (((0 :: tl).length : Nat) : Int) = .ok (ints (tl.drop (lz tl))) := by
+            unfold GoM.slice
+            rw [if_pos (by simp [ints_length]; omega)]
+            congr 1
+            rw [Int.toNat_natCast, Int.toNat_natCast, ← ints_length (0 :: tl), List.take_length, Nat.add_comm]
+            simp [ints, List.map_drop]
+          rw [hs]
+          simp only [tryC_ok, next_thenC, next_thenR]
+          cases hdrop : tl.drop (lz tl) with
+          | nil => exact absurd (List.drop_eq_nil_iff.mp hdrop) (by omega)
+          | cons y ys => rfl
+
+      · rfl
+      · intro i
+        simp only [scanStep, len_ints]
+        by_cases hi : i < (0 :: tl).length
+        · have hd2 : decide ((i : Int) < (((0 :: tl).length : Nat) : Int)) = true := by apply decide_eq_true; omega
+          simp only [hd2, if_true]
+          rw [idx_ints _ _ i rfl, List.getElem?_eq_getElem hi]
+          simp only [tryR_ok, tryC_ok, natCast_beq_zero]
+          cases (0 :: tl)[i] with
+          | zero => rfl
+          | succ k => rfl
+        · have hd2 : decide ((i : Int) < (((0 :: tl).length : Nat) : Int)) = false := by apply decide_eq_false; omega
+          simp only [hd2, Bool.false_eq_true, if_false, tryC_ok]
+          rw [List.getElem?_eq_none (by omega)]
+          rfl
+
 end Gzx.Obligations.K04bPoly
